@@ -531,15 +531,19 @@ class C19(RebuildProp):
     pid = "C19"
     clauses = ["C19.inside"]
     design_ref = "DESIGN.md section 6 C13/C14/C19"
-    level_text = ("TLC checks the destination-path resolution of CopyPath (PathRes in FindMatches.tla: join + "
-                  "resolution with '..', '.', absolute and embedded-separator components) for 'every write resolves "
-                  "inside the destination'. Conformance: reference-encoded v1 / v2 / hybrid metafiles whose name or "
+    level_text = ("TLC checks PathRes.tla - POSIX path resolution over a small filesystem with symbolic links, os.path.join over "
+                  "metafile elements that may embed separators, rebuild._destination and the directory chain + copy of "
+                  "utils.copypath - for 'every place the kernel mutates lies inside the destination' over 17 820 (destination "
+                  "pre-state, metafile entry) worlds; five wrong variants (pinned commit, first repair, lexical normalisation, "
+                  "parent-only resolution, character-wise prefix) must fail. The same universe, with the model's prediction, is "
+                  "replayed into the real rebuild (M19.impl: places changed on disk = places the model mutates). Conformance: reference-encoded v1 / v2 / hybrid metafiles whose name or "
                   "path components are hostile ('..', '.', absolute, 'a/../../b', chains of '..'), with a matching "
                   "candidate present so that the copy is attempted, are rebuilt under the operation log + guard; TLC "
                   "validates that no mutating operation resolved outside the destination, nothing outside changed and "
                   "nothing was denied by the guard.")
-    rule = ("cases = (version, single/dir, hostile value in the name or in each path position, candidate present); "
-            "non-trivial = every case; distinct by (version, name, path)")
+    rule = ("cases = (version, single/dir, hostile value in the name or in each path position, candidate present) + "
+            "destinations holding outward symbolic links + copies that cannot succeed into lonely destinations + worlds of "
+            "PathRes.tla (quick: 700 sampled, thorough: all 51 030 world x version); non-trivial = every case")
 
     def cases(self, tier, rng):
         out = []
